@@ -21,6 +21,17 @@ def model_tables(tabs, default=None):
     return out
 
 
+_PARSED = {}
+
+
+def parsed(text):
+    """Parse a fixed statement text once per process (TatSu needs 10-100 ms per statement)."""
+    if text not in _PARSED:
+        import beanquery.parser
+        _PARSED[text] = beanquery.parser.parse(text)
+    return _PARSED[text]
+
+
 def engine(conn, query, params=None):
     """-> ('ok', description, rows) | ('exc', exception)"""
     try:
